@@ -16,15 +16,15 @@ def c06(tier):
         runs.append(H("c01_foreach", "tsan", 60, None, timeout_per_case=90, params=dict(maxitems=600, focus="c02")))
     else:
         for t in TOPOS_THOROUGH:
-            runs.append(H("c06_locks", "plain", 600, t, timeout_per_case=30))
-            runs.append(H("c06_locks", "tsan", 300, t, timeout_per_case=120))
+            runs.append(H("c06_locks", "plain", 300, t, timeout_per_case=30))
+            runs.append(H("c06_locks", "tsan", 120, t, timeout_per_case=120))
         for cpus in (2, 4):
             runs.append(H("c06_locks", "plain", 200, "12,12,8", cpus=cpus, timeout_per_case=90, params=dict(oversub=1)))
         runs.append(H("c06_locks", "asan", 300, "4,4,4,4", timeout_per_case=60))
         for t in (None, "4,4,4,4", "3,5", "smt:2x2x2"):
-            runs.append(H("c05_barriers", "tsan", 100, t, timeout_per_case=120, params=dict(maxphases=100)))
-            runs.append(H("c01_foreach", "tsan", 500, t, timeout_per_case=90, params=dict(maxitems=1000)))
-            runs.append(H("c01_foreach", "tsan", 250, t, timeout_per_case=90, params=dict(maxitems=1000, focus="c02")))
+            runs.append(H("c05_barriers", "tsan", 40, t, timeout_per_case=120, params=dict(maxphases=100)))
+            runs.append(H("c01_foreach", "tsan", 250, t, timeout_per_case=90, params=dict(maxitems=1000)))
+            runs.append(H("c01_foreach", "tsan", 120, t, timeout_per_case=90, params=dict(maxitems=1000, focus="c02")))
     return runs
 
 
